@@ -460,7 +460,27 @@ def _d6(chk, fb):
                         if x["k"] == "DeclRefExpr" and x["decl"]["kind"] == "param" and x["decl"]["name"] in pnames and y["k"] in ("IntegerLiteral", "FloatingLiteral"):
                             return [{x["decl"]["name"]: sp.nsimplify(y["val"], rational=True)}]
                 return None
+            def neg_scenarios(c):
+                """scenarios under which c is FALSE (the guarded update is skipped)"""
+                c = strip(c)
+                if c["k"] == "UnaryOperator" and c["op"] == "!":
+                    return scenarios(kids(c)[0])
+                if c["k"] == "DeclRefExpr" and c["decl"]["id"] in binit:
+                    return neg_scenarios(binit[c["decl"]["id"]])
+                if c["k"] == "BinaryOperator" and c["op"] == "||":
+                    a_, b_ = neg_scenarios(kids(c)[0]), neg_scenarios(kids(c)[1])
+                    return None if a_ is None or b_ is None else [dict(x, **y) for x in a_ for y in b_]
+                if c["k"] == "BinaryOperator" and c["op"] == "&&":
+                    a_, b_ = neg_scenarios(kids(c)[0]), neg_scenarios(kids(c)[1])
+                    return None if a_ is None or b_ is None else a_ + b_
+                if c["k"] == "BinaryOperator" and c["op"] == "!=":
+                    l_, r_ = strip(kids(c)[0]), strip(kids(c)[1])
+                    for x, y in ((l_, r_), (r_, l_)):
+                        if x["k"] == "DeclRefExpr" and x["decl"]["kind"] == "param" and x["decl"]["name"] in pnames and y["k"] in ("IntegerLiteral", "FloatingLiteral"):
+                            return [{x["decl"]["name"]: sp.nsimplify(y["val"], rational=True)}]
+                return None
             cnode = f.nodes[ifn["cond"]]
+            sc_neg = None
             if negated:
                 c0 = strip(cnode)
                 if c0["k"] == "UnaryOperator" and c0["op"] == "!":
@@ -469,12 +489,14 @@ def _d6(chk, fb):
                     if c1["k"] == "DeclRefExpr" and c1["decl"]["id"] in binit:
                         cnode = binit[c1["decl"]["id"]]
                 else:
-                    continue
+                    sc_neg = neg_scenarios(cnode)
+                    if not sc_neg:
+                        continue
             else:
                 c1 = strip(cnode)
                 if c1["k"] == "DeclRefExpr" and c1["decl"]["id"] in binit:
                     cnode = binit[c1["decl"]["id"]]
-            sc = scenarios(cnode)
+            sc = sc_neg if sc_neg else scenarios(cnode)
             if not sc:
                 continue        # a shortcut on sizes / emptiness: not this rule
             # element-wise updates that follow the shortcut
